@@ -221,13 +221,19 @@ def qf_script(o, unfold_depth=3):
                 try:
                     e = sx_parse(ln)
                     if QI.has_q(e[1]):
-                        hyps.append(qi.pos(e[1]))
+                        try:
+                            hyps.append(qi.pos(e[1]))
+                        except ValueError:
+                            pass
                         continue
                 except ValueError:
                     pass
             pre.append(ln)
     for p in o.pc:
-        hyps.append(qi.pos(sx_parse(p)))
+        try:
+            hyps.append(qi.pos(sx_parse(p)))
+        except ValueError:
+            pass  # hypothesis with a quantifier in a non-monotone position: dropped (sound weakening)
     if recdefs:
         seen, frontier = set(), []
         for h in hyps + [g]:
